@@ -201,10 +201,40 @@ pub fn builder_plans(ctx: &mut Ctx, opts: &RunOpts) {
     }
 }
 
+/// insert / remove with every single-byte key and boundary value lengths (special byte values, RLP form changes)
+pub fn byte_value_histories(ctx: &mut Ctx, opts: &RunOpts) {
+    let mut n = 0u64;
+    for (kt, scheme) in kinds() {
+        if !matches!(kt, KT::K256 | KT::Toy | KT::Comb) {
+            continue;
+        }
+        for b in 0..=255u8 {
+            n += 1;
+            if !ctx.mine(n) {
+                continue;
+            }
+            if ctx.expired() {
+                return;
+            }
+            let len = [0usize, 1, 54, 55, 56, 57][(b % 6) as usize];
+            let steps = vec![
+                Step { op: Op::Insert(vec![b], Val::B(vec![b; len])), signer: Signer::Own },
+                Step { op: Op::InsertRaw(vec![b, b], rlp::enc_str(&[b])), signer: Signer::Own },
+                Step { op: Op::RemoveInsert(vec![vec![b]], vec![(vec![b, 1], vec![b; 2])]), signer: Signer::Own },
+                Step { op: Op::RemoveKey(vec![b, b]), signer: Signer::Own },
+            ];
+            let h = mk_history(scheme, OWN, OTHER, &Init::Build(vec![BEntry::Add(vec![b], Val::U8(b))]), steps);
+            run_hist_kt(ctx, kt, false, &h, opts);
+            ctx.count("byte-value-histories");
+        }
+    }
+}
+
 pub fn c05(ctx: &mut Ctx) {
     let opts = RunOpts::default();
     let q = ctx.quick();
     exhaustive_len1(ctx, false, &opts, &all);
+    byte_value_histories(ctx, &opts);
     builder_plans(ctx, &opts);
     if q {
         exhaustive_sub(ctx, 2, &["built-typical", "decoded-size-299"], &opts, &all);
@@ -566,6 +596,9 @@ pub fn c11(ctx: &mut Ctx) {
 pub fn c03_hist_part(ctx: &mut Ctx) {
     let opts = RunOpts::default();
     let q = ctx.quick();
+    if !cfg!(miri) {
+        byte_value_histories(ctx, &opts);
+    }
     if cfg!(miri) {
         // seeded short Toy histories with the complete accessor sweep, until the deadline
         random_histories(ctx, 1_000_000_000, 2, 5, &opts, &all);
